@@ -143,7 +143,21 @@ def gen_e2e(ctx, rng):
         meta["np_ints"] = rng.choice([64, 32])
     if len(L) >= 1 and rng.random() < 0.3:
         meta["region_container"] = rng.choice(["tuple1", "2d", "list"])
+    if not graded and rng.random() < 0.2:
+        # the same matrix stored in half / single precision (8-bit intensities: entries ≥ 256 whose squares leave the half-precision
+        # range; tiny amplitudes): GQR works on a copy of at least single precision
+        dt = rng.choice(["float16", "float16", "float32"])
+        e = rng.choice([0, 8, 8, -13] if dt == "float16" else [0, 20, -20])
+        Bs = np.array(kw_B(B)) * 2.0 ** e
+        if np.all(np.isfinite(Bs.astype(dt))) and np.array_equal(Bs.astype(dt).astype(float), Bs):
+            B = Bs
+            meta["dtype"] = dt
+            ctx.count(f"e2e:basis_dtype:{dt}·2^{e}")
     return OptCase(B, "gqr", gqr=kw, meta=meta)
+
+
+def kw_B(B):
+    return B
 
 
 def counts_ok(opt, ranking, L, N, s):
